@@ -224,8 +224,11 @@ def compare_config(impl, model):
         if m['err'] == 'recursion':
             if impl.get('err') in ('eval', 'unsafe', 'recursion'):
                 return None
-            if 'ok' in impl and has_leak(impl['ok']):
-                return 'KNOWN:D21'   # dependency cycle through an !eval name: a lazy placeholder leaks (C11 finding)
+            if 'ok' in impl and (has_leak(impl['ok']) or 'eval' in impl.get('log', [])):
+                # D21: the model (exact on cycles, C10_builds_iff_denotation) sees a dependency cycle, the implementation builds:
+                # only possible through an !eval name lookup (reference-only cycles are refused, C09); the placeholder leaks into
+                # the result unless the values on the cycle are None / plain (interpreted symbols)
+                return 'KNOWN:D21'
             return f"model: recursion, impl: {json.dumps(impl)[:120]}"
         i = {k: v for k, v in impl.items() if k != 'log'}
         return first_diff(i, m)
